@@ -290,6 +290,7 @@ func runC10(rcx *RunCtx) {
 			})
 		}
 		simrt.Block("callers done", func() bool { return done == ncallers })
+		simrt.Join()
 		// every call returned: no hang.  What the server still has pending was
 		// abandoned by callers that were failed by a fault.
 		if !cw.faulted {
